@@ -113,7 +113,7 @@ def run_case(case):
     offs = gen_offsets(case, nb, n)
     differ_data = any((data[b] != data[0]).any() for b in range(1, nb))
     differ_offs = any((offs[b] != offs[0]).any() for b in range(1, nb))
-    cls = [kind, "it%d" % case["it"], "nb%d" % nb]
+    cls = [kind, "it%d" % case["it"], "nb%d" % nb if nb <= 5 else "nb_long"]
     if kind == "chain":
         return run_chain(case, data)
     s.reset(n, nb)
@@ -145,7 +145,9 @@ def run_case(case):
     multi = s.ps_data(o).copy()
     if kind in ("rf_lin", "rf_sin", "drift"):
         offs = None
-    for b in range(nb):
+    # every bunch for small trains; for long trains a sample incl. the first, the last and both sides of 256
+    which = list(range(nb)) if nb <= 6 else sorted(set([0, 1, nb - 1, nb // 2, min(nb - 1, 255), min(nb - 1, 256)] + [int(x) for x in gen.rng(case["dseed"] + 9).integers(0, nb, 3)]))
+    for b in which:
         ob = None if offs is None else offs[b].copy()
         single = run_single(case, single_kind, b, data[b], ob)
         if (gen.bits(multi[b]) != gen.bits(single)).any():
@@ -212,6 +214,10 @@ def cases(draw):
     kind = draw(st.sampled_from(MAPKINDS))
     n = draw(st.integers(8, 48))
     nb = draw(st.integers(2, 5))
+    if kind not in ("wake", "chain") and draw(st.integers(0, 11)) == 0:
+        # "for all bunch counts": long trains on a small grid (fully filled rings have hundreds of bunches)
+        nb = draw(st.sampled_from([17, 64, 255, 256, 257, 300]))
+        n = draw(st.integers(8, 12))
     it = draw(st.sampled_from([1, 2, 3, 4]))
     c = dict(kind=kind, n=n, nb=nb, it=it, dseed=draw(gen.seeds()),
              dkind=draw(st.sampled_from(["noise", "pos", "altsign", "impulse"])),
